@@ -80,7 +80,34 @@ pub fn gen(idx: u64, rng: &mut Rng, tier: Tier) -> Scn {
     ];
     let n = 24;
     let mut locations = Vec::new();
-    for _ in 0..n {
+    // the other components of a URL (query, fragment, parameters, user info, port) carrying path material
+    let seps = ["?", "#", "?/", "#/", "?q=", "?q=1/", ";", ";/", "?a#", "%3F/", "?/../#/"];
+    let tails = ["..", "..", "..", "name", ".", "", "victim.txt", "c6", "dest-old/victim", "dest.log", "%2e%2e", "{JAIL}/l1/abs", "l6/c6"];
+    for k in 0..n {
+        if k % 2 == 1 {
+            let mut s = String::new();
+            s.push_str(*rng.pick(&PREFIXES[..]));
+            if rng.chance(0.15) {
+                s.push_str(*rng.pick(&["u:p@h/", "..@h/", "h:80/", "[::1]/", "h/..:1/"]));
+            }
+            let np = rng.range(0, 2);
+            for i in 0..np {
+                if i > 0 {
+                    s.push('/');
+                }
+                s.push_str(*rng.pick(&["name", "name", "a", ".", "..", "seg.m4s"]));
+            }
+            s.push_str(*rng.pick(&seps[..]));
+            let nt = rng.range(1, 5);
+            for i in 0..nt {
+                if i > 0 {
+                    s.push('/');
+                }
+                s.push_str(*rng.pick(&tails[..]));
+            }
+            locations.push(s);
+            continue;
+        }
         let len = rng.range(1, 12);
         let mut s = String::new();
         for _ in 0..len {
